@@ -4,6 +4,8 @@ From BS Require Import Base.Sexp.
 Import ListNotations.
 Open Scope N_scope.
 
+Definition memN (x : N) (l : list N) : bool := existsb (N.eqb x) l.
+
 (* UnicodeDammit.MS_CHARS values: ("name", "HEX") tuples or plain strings *)
 Inductive ms_entry := MsPair (name hex : str) | MsPlain (s : str).
 
